@@ -60,7 +60,9 @@ def flags_for(cfg):
         lib.append('-D_GLIBCXX_SANITIZE_VECTOR')
     lib += ['-D' + d for d in defs]
     exe_san = [f for f in sanflags if 'thread' not in f]          # the scheduler stays invisible to TSan
-    exe = common + exe_san + ['-I' + SIM]
+    exe = common + exe_san + ['-I' + SIM, '-D_GLIBCXX_ASSERTIONS']
+    if 'address' in san:
+        exe.append('-D_GLIBCXX_SANITIZE_VECTOR')    # must agree with the .so: std::vector code is shared across the boundary
     link_so = ['-shared'] + sanflags + ['-Wl,-z,now,-z,relro',
                '-Wl,--wrap=__cxa_guard_acquire,--wrap=__cxa_guard_release,--wrap=__cxa_guard_abort']
     link_exe = sanflags + ['-rdynamic', '-lpthread', '-ldl']
@@ -118,9 +120,14 @@ def build(cfg, verbose=False):
     if not all(oks):
         return None, '\n'.join(log)
     so = os.path.join(tmp, 'libclipsim.so')
-    if not run([CXX] + [os.path.join(tmp, s + '.o') for s in LIB_SRCS + WORK_SRCS] + link_so + ['-o', so], log):
+    so_linker = ['clang'] if 'thread' in CONFIGS[cfg][0] else [CXX]
+    if not run(so_linker + [os.path.join(tmp, s + '.o') for s in LIB_SRCS + WORK_SRCS] + link_so + (['-lstdc++', '-lm'] if 'thread' in CONFIGS[cfg][0] else []) + ['-o', so], log):
         return None, '\n'.join(log)
-    if not run([CXX] + [os.path.join(tmp, s + '.o') for s in EXE_SRCS] + ['-L' + tmp, '-lclipsim', '-Wl,-rpath,$ORIGIN'] + link_exe +
+    # TSan: libclang_rt.tsan_cxx (whole-archive) defines operator new/delete and would collide with the allocator
+    # seam; linking through the C driver leaves it out (malloc/free interception is all that is needed).
+    linker = ['clang'] if 'thread' in CONFIGS[cfg][0] else [CXX]
+    cxxlibs = ['-lstdc++', '-lm'] if 'thread' in CONFIGS[cfg][0] else []
+    if not run(linker + [os.path.join(tmp, s + '.o') for s in EXE_SRCS] + ['-L' + tmp, '-lclipsim', '-Wl,-rpath,$ORIGIN'] + link_exe + cxxlibs +
                ['-o', os.path.join(tmp, 'sim')], log):
         return None, '\n'.join(log)
     for s in LIB_SRCS + WORK_SRCS + EXE_SRCS:
